@@ -956,6 +956,93 @@ static int sch_pbpsi(sess_t *s) {
 	return 0;
 }
 
+/* ---- RSA-accumulator PSI (rsapsi) and its size-hiding variant (shipsi): client set b[0..m-1],
+ * server set b[8..8+n-1]; the client's query d and the server's answer (t[], u[] / u) cross the wire ---- */
+static int sch_rsapsi(sess_t *s) {
+	int shi = !strcmp(s->scheme, "shipsi");
+	size_t m = (size_t)(s->opt[4] % 5), n = (size_t)(s->opt[5] % 5);
+	size_t ov = (size_t)(s->opt[6] % 5);
+	size_t bits = 256 + 128 * (size_t)(s->opt[2] % 3);
+	static bn_t pp[NSESS][5], tt[NSESS][5], uu[NSESS][5], tr[NSESS][5], ur[NSESS][5];
+	static crt_t crt[NSESS];
+	static int ready = 0;
+	if (!ready) {
+		for (int a = 0; a < NSESS; a++) {
+			for (int b = 0; b < 5; b++) {
+				bn_null(pp[a][b]); bn_new(pp[a][b]); bn_null(tt[a][b]); bn_new(tt[a][b]); bn_null(uu[a][b]); bn_new(uu[a][b]);
+				bn_null(tr[a][b]); bn_new(tr[a][b]); bn_null(ur[a][b]); bn_new(ur[a][b]);
+			}
+			crt_null(crt[a]); crt_new(crt[a]);
+		}
+		ready = 1;
+	}
+	if (ov > m) ov = m;
+	if (ov > n) ov = n;
+	/* b[20] = g, b[21] = modulus, b[22] = d, b[23] = r, b[19] = d as received */
+	switch (s->phase) {
+		case 0: {
+			size_t eb = 8 + (size_t)(s->opt[3] % 200);
+			for (int b = 0; b < 5; b++) { bn_zero(pp[s->sid][b]); bn_zero(tt[s->sid][b]); bn_zero(uu[s->sid][b]); bn_zero(tr[s->sid][b]); bn_zero(ur[s->sid][b]); }
+			for (size_t i = 0; i < m; i++) { bn_rand(s->b[i], RLC_POS, eb); bn_add_dig(s->b[i], s->b[i], (dig_t)i); }
+			for (size_t i = 0; i < n; i++) { if (i < ov) bn_copy(s->b[8 + i], s->b[i]); else { bn_rand(s->b[8 + i], RLC_POS, eb + 1); bn_set_bit(s->b[8 + i], eb, 1); } }
+			tr_printf("SETS %d m=%zu n=%zu ov=%zu bits=%zu\n", s->sid, m, n, ov, bits);
+			if (shi) {
+				log_rc(s, "gen", cp_shipsi_gen(s->b[20], crt[s->sid], bits));
+				bn_copy(s->b[21], crt[s->sid]->n);
+			} else {
+				log_rc(s, "gen", cp_rsapsi_gen(s->b[20], s->b[21], bits));
+			}
+			return 1;
+		}
+		case 1:
+			if (shi) log_rc(s, "ask", cp_shipsi_ask(s->b[22], s->b[23], pp[s->sid], s->b[20], s->b[21], (const bn_t *)s->b, m));
+			else log_rc(s, "ask", cp_rsapsi_ask(s->b[22], s->b[23], pp[s->sid], s->b[20], s->b[21], (const bn_t *)s->b, m));
+			s->flag[0] = xmit_bn(s, "d", s->b[19], s->b[22], 0);
+			return 1;
+		case 2: {
+			int ok = s->flag[0];
+			if (!ok || bn_sign(s->b[19]) == RLC_NEG || bn_bits(s->b[19]) > bits + 8) { tr_printf("NOTE %d server-refused-query\n", s->sid); s->flag[1] = 0; return 1; }
+			if (shi) log_rc(s, "ans", cp_shipsi_ans(tt[s->sid], uu[s->sid][0], s->b[19], s->b[20], crt[s->sid], (const bn_t *)(s->b + 8), n));
+			else log_rc(s, "ans", cp_rsapsi_ans(tt[s->sid], uu[s->sid], s->b[19], s->b[20], s->b[21], (const bn_t *)(s->b + 8), n));
+			char nm[8];
+			for (size_t j = 0; j < n; j++) {
+				snprintf(nm, sizeof(nm), "t%zu", j);
+				ok &= xmit_bn(s, nm, tr[s->sid][j], tt[s->sid][j], 0);
+				if (!shi) {
+					snprintf(nm, sizeof(nm), "u%zu", j);
+					ok &= xmit_bn(s, nm, ur[s->sid][j], uu[s->sid][j], 0);
+				}
+			}
+			if (shi) ok &= xmit_bn(s, "u", ur[s->sid][0], uu[s->sid][0], 0);
+			for (size_t j = 0; j < 5; j++) {
+				if (bn_sign(tr[s->sid][j]) == RLC_NEG || bn_sign(ur[s->sid][j]) == RLC_NEG || bn_bits(tr[s->sid][j]) > bits + 8 || bn_bits(ur[s->sid][j]) > bits + 8) ok = 0;
+			}
+			s->flag[1] = ok;
+			return 1;
+		}
+		case 3: {
+			size_t len = 0;
+			bn_t z[32];
+			if (!s->flag[1]) { tr_printf("NOTE %d client-refused-answer\n", s->sid); return 0; }
+			for (int i = 0; i < 32; i++) { bn_null(z[i]); bn_new(z[i]); }
+			int rc;
+			if (shi) rc = cp_shipsi_int(z, &len, s->b[23], (const bn_t *)pp[s->sid], s->b[21], (const bn_t *)s->b, m, (const bn_t *)tr[s->sid], ur[s->sid][0], n);
+			else rc = cp_rsapsi_int(z, &len, s->b[23], (const bn_t *)pp[s->sid], s->b[21], (const bn_t *)s->b, m, (const bn_t *)tr[s->sid], (const bn_t *)ur[s->sid], n);
+			log_rc(s, "int", rc);
+			if (rc == RLC_OK) {
+				tr_printf("OUT %d inter v=", s->sid);
+				int mask = 0;
+				for (size_t j = 0; j < len && j < 32; j++) { for (size_t i = 0; i < m; i++) { if (bn_cmp(z[j], s->b[i]) == RLC_EQ) mask |= 1 << i; } }
+				tr_printf("%02x\n", mask);
+				tr_printf("OUT %d interlen v=%02zx\n", s->sid, len);
+			}
+			for (int i = 0; i < 32; i++) { bn_free(z[i]); }
+			return 0;
+		}
+	}
+	return 0;
+}
+
 /* ---- Pedersen commitment: commit, later open; homomorphic combination of two commitments ---- */
 static int sch_ped(sess_t *s) {
 	switch (s->phase) {
@@ -1486,6 +1573,6 @@ static int sch_mpcpc(sess_t *s) {
 	{ "ghpe", sch_ghpe, 0, 0, 0 }, { "bdpe", sch_bdpe, 0, 0, 0 }, { "rabin", sch_rabin, 0, 0, 0 }, { "ibe", sch_ibe, 1, 0, 0 }, \
 	{ "bgn", sch_bgn, 1, 0, 0 }, { "sokaka", sch_sokaka, 1, 0, 0 }, { "mt", sch_mt, 0, 0, 0 }, { "pdpub", sch_pdpub, 1, 0, 0 }, \
 	{ "lvpub", sch_pdpub, 1, 0, 0 }, { "pdprv", sch_pdprv, 1, 0, 0 }, { "lvprv", sch_pdprv, 1, 0, 0 }, { "pbpsi", sch_pbpsi, 1, 0, 0 }, \
-	{ "ped", sch_ped, 0, 0, 0 }, \
+	{ "ped", sch_ped, 0, 0, 0 }, { "rsapsi", sch_rsapsi, 0, 0, 0 }, { "shipsi", sch_rsapsi, 0, 0, 0 }, \
 	{ "etrs", sch_etrs, 0, 0, 0 }, { "smlers", sch_smlers, 0, 0, 0 }, { "cmlhs", sch_cmlhs, 1, 0, 0 }, { "mpss", sch_mpss, 1, 0, 0 }, \
 	{ "shpe", sch_shpe, 0, 0, 0 }, { "mpcg1", sch_mpcg1, 1, 0, 0 }, { "mpcpc", sch_mpcpc, 1, 0, 0 },
